@@ -168,10 +168,10 @@ func (g *gen) genDM() {
 	dm(g.bytes(5000))
 	// explicit colour schemes (EncodeWithColor)
 	for _, sch := range []string{
-		"@RGBAModel|RGBA/ffff,ffff,ffff,ffff|RGBA/0000,0000,0000,ffff",
-		"@RGBAModel|RGBA/0000,0000,0000,ffff|RGBA/ffff,ffff,ffff,ffff",
-		"@GrayModel|Gray/8080,8080,8080,ffff|Gray/8080,8080,8080,ffff",
-		"@RGBA64Model|RGBA64/1234,5678,9abc,ffff|RGBA64/0000,ffff,0000,8000",
+		"@RGBAModel|RGBA:ff,ff,ff,ff|RGBA:00,00,00,ff",
+		"@RGBAModel|RGBA:00,00,00,ff|RGBA:ff,ff,ff,ff",
+		"@GrayModel|Gray:80|Gray:80",
+		"@RGBA64Model|RGBA64:1234,5678,9abc,ffff|RGBA64:0000,ffff,0000,8000",
 	} {
 		for _, n := range []int{0, 1, 3, 4, 45, 63, 1558, 1559} {
 			g.emit("dm %s %s", hx(g.dmContent(4, n)), sch)
